@@ -1853,6 +1853,8 @@ def evaluate__round(self: XPathFunction, context: ta.ContextType = None) \
 
     if isinstance(arg, float) and (math.isnan(arg) or math.isinf(arg)):
         return arg
+    elif isinstance(arg, bool):
+        raise self.error('XPTY0004', 'an xs:numeric value required, not an xs:boolean')
 
     precision: int = self.get_argument(context, index=1, default=0, cls=int)
     try:
